@@ -140,6 +140,7 @@ def run(ctx):
     resolution_stream(ctx, g)
     ctx.cov["in_theorem_domain"] = in_domain
     ctx.cov["traces_validated_against_impl"] = len(meta) + len(mal)
+    cross_module_tables(ctx, g, ctx.rng, 6 if ctx.quick else 120)
     import codec_cases as _cc
     for _k, _v in _cc.FORMS.items():
         ctx.count("encode_value_form:" + _k, _v)
@@ -148,6 +149,81 @@ def run(ctx):
                        "for which the Coq predicate wt (premise of decode_encode) evaluates to true")
     for rec in meta[200:204]:
         ctx.sample({"type_name": rec["tn"], "value_sx": rec["vs"], "bytes": rec["enc"][1].hex() if rec["enc"][0] == "ok" else rec["enc"][1]})
+
+
+def cross_module_tables(ctx, g, rng, n):
+    """'AuxData.data after a save/load cycle': tables of every size (a bare UUID, one Offset, a few entries, hundreds of bytes)
+    attached to the IR and to EVERY module, naming nodes of earlier, the same and LATER modules and the IR itself, plus UUIDs that
+    name nothing: after load each entry naming an attached node is that node object of the loaded IR, the others plain UUIDs --
+    whatever the order in which tables and nodes are decoded."""
+    import io
+    import uuid as uuidlib
+    for rd in range(n):
+        ir = g.IR()
+        mods, nodes = [], [ir]
+        for mi in range(rng.choice([2, 3, 4])):
+            m = g.Module(name="m%d" % mi, ir=ir)
+            sec = g.Section(name="s", module=m)
+            bi = g.ByteInterval(size=16, section=sec)
+            nodes += [m, sec, bi, g.CodeBlock(size=1, offset=0, byte_interval=bi), g.DataBlock(size=1, offset=4, byte_interval=bi),
+                      g.ProxyBlock(module=m), g.Symbol("y%d" % mi, module=m)]
+            mods.append(m)
+        stray = [uuidlib.UUID(int=rng.getrandbits(128)) for _ in range(2)] + [g.CodeBlock(size=1).uuid]
+        expect = {}
+        for ci, cont in enumerate([ir] + mods):
+            def pick():
+                return rng.choice(nodes) if rng.random() < 0.8 else rng.choice(stray)
+            one, two = pick(), pick()
+            many = [pick() for _ in range(rng.choice([5, 12, 40]))]
+            tables = {
+                "u": (one, "UUID"),
+                "o": (g.Offset(two, rng.choice([0, 7, (1 << 64) - 1])), "Offset"),
+                "s": ([pick() for _ in range(rng.choice([0, 1, 2, 3]))], "sequence<UUID>"),
+                "m": ({pick(): rng.randrange(256)}, "mapping<UUID,uint8_t>"),
+                "v": (g.serialization.Variant(1, g.Offset(pick(), 3)), "variant<string,Offset>"),
+                "t": ((pick(), [g.Offset(pick(), 1)], "x"), "tuple<UUID,sequence<Offset>,string>"),
+                "big": (many, "sequence<UUID>"),
+            }
+            for k, (v, tn) in tables.items():
+                cont.aux_data[k] = g.AuxData(v, tn)
+                expect[(ci, k)] = (v, tn)
+        buf = io.BytesIO()
+        try:
+            ir.save_protobuf_file(buf)
+            ir2 = g.IR.load_protobuf_file(io.BytesIO(buf.getvalue()))
+        except Exception as e:  # noqa: BLE001
+            ctx.add("oracle", "tables:save-load-raised", "save/load of an IR with UUID/Offset tables raised %s" % exc_name(g, e), {})
+            continue
+        conts2 = [ir2] + list(ir2.modules)
+        attached = {x.uuid for x in nodes}
+
+        def norm(x, loaded):
+            """value with every UUID-ish leaf as ('node', uuid) when it must be / is a node object, ('uuid', uuid) otherwise"""
+            if isinstance(x, g.Node):
+                return ("node", x.uuid.int, (ir2.get_by_uuid(x.uuid) is x) if loaded else True)
+            if isinstance(x, uuidlib.UUID):
+                return ("node", x.int, True) if (not loaded and x in attached) else ("uuid", x.int, True)
+            if isinstance(x, g.Offset):
+                return ("offset", norm(x.element_id, loaded), x.displacement)
+            if isinstance(x, g.serialization.Variant):
+                return ("variant", x.index, norm(x.val, loaded))
+            if isinstance(x, dict):
+                return ("map", sorted((norm(k, loaded), norm(v, loaded)) for k, v in x.items()))
+            if isinstance(x, (list, tuple)):
+                return ("seq", [norm(y, loaded) for y in x])
+            return x
+        for (ci, k), (v, tn) in expect.items():
+            ctx.case("table:%d:%s:%s" % (rd, ci, k), True)
+            ctx.count("cross_module_tables")
+            try:
+                got = conts2[ci].aux_data[k].data
+            except Exception as e:  # noqa: BLE001
+                ctx.add("oracle", "tables:read-raised", "reading table %s of container %d after load raised %s" % (tn, ci, exc_name(g, e)), {"type_name": tn})
+                continue
+            if norm(v, False) != norm(got, True):
+                ctx.add("oracle", "tables:node-resolution", "a %s table attached to %s of a %d-module IR comes back with entries that are not the attached node "
+                        "objects (or are nodes where a plain UUID was stored)" % (tn, "the IR" if ci == 0 else "module %d" % (ci - 1), len(mods)),
+                        {"type_name": tn, "container": ci, "file": buf.getvalue().hex(), "stored": repr(norm(v, False))[:500], "loaded": repr(norm(got, True))[:500]})
 
 
 def resolution_stream(ctx, g):
